@@ -69,37 +69,19 @@ theorem int_never_panics (x : Num) : (intImpl [numVal x]).isPanic = false := by
     · rw [int_whole _ hi]; rfl
     · simp [intImpl, hi, Num.truncInt, Num.isInf, Res.isPanic]
 
-/-- `signum` on a whole number in the int64 range is −1 / 0 / 1 by its sign. -/
-theorem signum_partial (x : Num) (k : Int) (h : Gocty.int64Exact x = some k) :
-    signumImpl [numVal x] = .ok (intVal (if k < 0 then -1 else if k > 0 then 1 else 0)) := by
-  have hr : -9223372036854775808 ≤ k ∧ k ≤ 9223372036854775807 := by
-    unfold Gocty.int64Exact at h
-    split at h
-    · split at h
-      · rename_i hk; cases h; exact hk
-      · cases h
-    · cases h
-  have hf : fromCtyInt (numVal x) = .ok k := by
-    have : ¬ (k < -9223372036854775808 ∨ k > 9223372036854775807) := by omega
-    simp [fromCtyInt, numVal, Gocty.fromNumInt, Gocty.intMinMax, h, this]
-  simp only [signumImpl, arg0, Res.bind_ok, hf]
-  by_cases h1 : k < 0
-  · simp [h1]
-  · by_cases h2 : k > 0 <;> simp [h1, h2]
+/-- `signum` returns the sign of ANY number — fractions, numbers outside int64 and
+±infinity included: −1 / 0 / 1 as `big.Float.Sign` reports it. -/
+theorem signum_by_sign (x : Num) : signumImpl [numVal x] = .ok (intVal x.sign) := by
+  simp [signumImpl]
 
-/-- Full statement "signum returns the sign of ANY number": FALSE of the code — the
-argument is decoded into a Go `int` first, so a non-integer (and anything outside
-int64, and ±inf) is an error. -/
-def SignumBySign : Prop := ∀ x : Num, signumImpl [numVal x] = .ok (intVal x.sign)
-
-/-- the witness: signum(0.5) -/
-theorem signum_counterexample : signumImpl [numVal (.fin false 1 (-1) 53)] = .err "whole number" := rfl
-
-theorem signumBySign_false : ¬ SignumBySign := by
-  intro h
-  have := h (.fin false 1 (-1) 53)
-  rw [signum_counterexample] at this
-  cases this
+/-- the three values of the sign -/
+theorem sign_values (x : Num) : x.sign = -1 ∨ x.sign = 0 ∨ x.sign = 1 := by
+  cases x with
+  | inf n => cases n <;> simp [Num.sign]
+  | fin n m e p =>
+    cases m with
+    | zero => simp [Num.sign]
+    | succ k => cases n <;> simp [Num.sign]
 
 /-- `abs` clears the sign and nothing else: the result is the argument or its negation. -/
 theorem abs_spec (x : Num) :
@@ -308,32 +290,18 @@ theorem reverse_is_cluster_reverse (nfc : String → String) (clusters : String 
     reverseImpl nfc clusters [⟨.string, .s s⟩] = .ok (stringVal nfc (String.join (clusters s).reverse)) := by
   simp [reverseImpl, asString, Value.isMarked, Payload.isMarked, Ty.isString, reverseLoop_eq]
 
-/-- Full statement "`substr` is take/drop on clusters with the negative-offset rule":
-FALSE of the code for a negative offset together with length 0. -/
-def SubstrIsTakeDrop : Prop := ∀ (cs : List String) (offset length : Int),
-  substrClusters cs offset length = substrSpec cs offset length
-
-/-- … it holds everywhere else: `substr = take length ∘ drop offset` on the cluster
-list, a negative offset counting from the end, a negative length meaning "to the end". -/
-theorem substr_partial (cs : List String) (offset length : Int) (h : ¬ (offset < 0 ∧ length = 0)) :
-    substrClusters cs offset length = substrSpec cs offset length := by
-  rw [substrClusters_eq]; simp [h]
-
-/-- the witness: substr("a", −1, 0) is "a", not "" -/
-theorem substr_counterexample : substrClusters ["a"] (-1) 0 = ["a"] ∧ substrSpec ["a"] (-1) 0 = [] := by
-  constructor <;> decide
-
-theorem substrIsTakeDrop_false : ¬ SubstrIsTakeDrop := by
-  intro h
-  have := h ["a"] (-1) 0
-  rw [substr_counterexample.1, substr_counterexample.2] at this
-  cases this
+/-- `substr` is take/drop on the cluster list: `take length ∘ drop offset`, a negative
+offset counting from the end (clamped at the start), a negative length meaning
+"to the end" — for every offset and length. -/
+theorem substr_is_take_drop (cs : List String) (offset length : Int) :
+    substrClusters cs offset length = substrSpec cs offset length :=
+  substrClusters_eq cs offset length
 
 /-- `substr` never splits a cluster: for EVERY offset and length the result is a
 contiguous run of whole clusters of the input. -/
 theorem substr_never_splits_a_cluster (cs : List String) (offset length : Int) :
     substrClusters cs offset length <:+: cs := by
-  rw [substrClusters_eq]; exact substrSpec_infix cs offset _
+  rw [substrClusters_eq]; exact substrSpec_infix cs offset length
 
 /-- `substr` at the value level: offset and length are decoded as Go ints (anything
 else is an error), and the result is the joined clusters, re-normalised. -/
@@ -513,29 +481,11 @@ theorem format_width_on_clusters (clusters : String → List String) (v : Verb) 
          if v.minus then s ++ pads else pads ++ s)) :=
   ⟨padWidth_wide clusters v s h, padWidth_pads clusters v s h⟩
 
-/-- Full statement "for strings, precision limits the input to that many clusters":
-FALSE of the code for precision 0 (`%.0s`, `%.s`), which is not applied at all. -/
-def StringPrecisionLimits : Prop := ∀ (clusters : String → List String) (v : Verb) (s : String),
-  v.hasPrec = true → precCut clusters v s = String.join ((clusters s).take v.prec)
-
-/-- … for a positive precision the string is cut after exactly that many whole clusters. -/
-theorem format_string_precision_partial (clusters : String → List String) (v : Verb) (s : String)
-    (h : v.hasPrec = true) (hp : 0 < v.prec) :
+/-- For strings, precision limits the input to that many whole clusters — for every
+precision, zero included (`%.0s` prints nothing). -/
+theorem format_string_precision (clusters : String → List String) (v : Verb) (s : String) (h : v.hasPrec = true) :
     precCut clusters v s = String.join ((clusters s).take v.prec) :=
-  precCut_pos clusters v s h hp
-
-/-- the witness: `%.0s` of "a" -/
-theorem format_string_precision_counterexample :
-    precCut (fun s => [s]) { raw := [], offset := 0, argNum := 1, hasPrec := true, prec := 0 } "a" = "a" ∧
-    String.join (([("a" : String)]).take 0) = "" := by
-  constructor <;> decide
-
-theorem stringPrecisionLimits_false : ¬ StringPrecisionLimits := by
-  intro h
-  have := h (fun s => [s]) { raw := [], offset := 0, argNum := 1, hasPrec := true, prec := 0 } "a" rfl
-  rw [format_string_precision_counterexample.1] at this
-  revert this
-  decide
+  precCut_has clusters v s h
 
 /-- A verb that asks for an argument beyond the ones given is an error. -/
 theorem format_not_enough_arguments (L : Lib) (v : Verb) (args : List Value) (h : args.length < v.argNum) :
@@ -560,7 +510,11 @@ example : Normal (.fin true 5 (-1) 53) := by unfold Normal; decide
 example : ceilImpl [numVal (.fin true 5 (-1) 53)] = .ok (numVal (.fin true 1 1 53)) := rfl   -- ceil(-2.5) = -2
 example : floorImpl [numVal (.fin true 5 (-1) 53)] = .ok (numVal (.fin true 3 0 53)) := rfl  -- floor(-2.5) = -3
 example : intImpl [numVal (.fin true 5 (-1) 53)] = .ok (numVal (.fin true 1 1 64)) := rfl    -- int(-2.5) = -2
-example : Gocty.int64Exact (.fin true 3 0 64) = some (-3) := by decide
+-- witnesses of repaired defects (3f9a6a5, 2a9c93a, d93e8c0): must keep holding
+example : signumImpl [numVal (.fin false 1 (-1) 53)] = .ok (intVal 1) := rfl              -- signum(0.5) = 1
+example : signumImpl [numVal (.inf true)] = .ok (intVal (-1)) := rfl
+example : substrClusters ["a"] (-1) 0 = [] := by decide                                    -- substr("a", -1, 0) = ""
+example : precCut (fun s => [s]) { raw := [], offset := 0, argNum := 1, hasPrec := true, prec := 0 } "a" = "" := by decide
 example : fromCtyInt (intVal 16) = .ok 16 := by decide
 example : setString "-fF".toList 16 = some (-255) := by decide
 example : setString "Zz".toList 62 = some 3817 := by decide
